@@ -1728,6 +1728,39 @@ func extractLocks(p *Pkg) (string, error) {
 	sort.Strings(sites)
 	b.WriteString("/-- every statement of package comet that touches the global id counter -/\n")
 	b.WriteString("def idCounterSites : List String := " + LeanStrList(sites) + "\n\n")
+	// shape of memtableQueue.add / addWithID: is the write (memtable.add / addWithID) called while
+	// the queue lock is held for writing?
+	b.WriteString("/-- memtableQueue.add / addWithID: the call of memtable.add / addWithID happens under the queue's write lock -/\n")
+	b.WriteString("def queueAddWritesUnderLock : List (String × Bool) := [")
+	firstQ := true
+	for _, k := range []string{"memtableQueue.add", "memtableQueue.addWithID"} {
+		f := c.funcs[k]
+		if f == nil {
+			continue
+		}
+		under, seenCall := true, false
+		for _, path := range f.Paths {
+			for _, e := range path {
+				if e.Kind != "call" {
+					continue
+				}
+				for _, cal := range e.Callees {
+					if cal == "memtable.add" || cal == "memtable.addWithID" {
+						seenCall = true
+						if e.Held["memtableQueue"] != "W" {
+							under = false
+						}
+					}
+				}
+			}
+		}
+		if !firstQ {
+			b.WriteString(", ")
+		}
+		firstQ = false
+		fmt.Fprintf(&b, "(%s, %v)", LeanStr(k), under && seenCall)
+	}
+	b.WriteString("]\n\n")
 	// lock shape of every Remove: the modes of its lock acquisitions along each path
 	b.WriteString("/-- lock regions of every `Remove` method, per path: modes acquired in order (0 = R, 1 = W) -/\n")
 	b.WriteString("def removeShapes : List (String × List (List Nat)) := [")
